@@ -426,3 +426,52 @@ def compare(c, o, m):
 
 def nontrivial(c, o):
     return c["cls"] not in ("near_identity",) and "err" not in o
+
+
+# ------------------------------------------------------------------ (G) what Path.apply_transform keeps in the cache
+
+def translate(ctx):
+    """by ast from path/path.py::Path.apply_transform: the cache keys copied across the transform, the key whose
+    value is transformed point by point, and the order verify -> (read cache) -> assign vertices -> clear -> id_set ->
+    update"""
+    import ast
+    import os
+    tree = ast.parse(open(os.path.join(common.REPO, "trimesh/path/path.py")).read())
+    fn = None
+    for node in ast.walk(tree):
+        if isinstance(node, ast.ClassDef) and node.name == "Path":
+            for f in node.body:
+                if isinstance(f, ast.FunctionDef) and f.name == "apply_transform":
+                    fn = f
+    if fn is None:
+        raise common.Broken("translate", "path.py: Path.apply_transform not found")
+    kept, transported, events = [], [], []
+    for st in ast.walk(fn):
+        if isinstance(st, ast.For) and isinstance(st.iter, ast.List) and all(isinstance(e, ast.Constant) for e in st.iter.elts):
+            body = ast.unparse(st)
+            if "cache[key] = self._cache.cache[key]" in body:
+                kept = [e.value for e in st.iter.elts]
+        if isinstance(st, ast.Assign) and ast.unparse(st.targets[0]).startswith("cache[") and "transform_points" in ast.unparse(st.value):
+            transported.append(ast.literal_eval(st.targets[0].slice))
+    for st in fn.body:
+        src = ast.unparse(st)
+        for tag, pat in (("verify", "self._cache.verify()"), ("assign_vertices", "self.vertices = "), ("clear", "self._cache.clear()"),
+                         ("id_set", "self._cache.id_set()"), ("update", "self._cache.cache.update(cache)")):
+            if pat in src:
+                events.append(tag)
+    if not kept:
+        raise common.Broken("translate", "Path.apply_transform: the list of cache keys kept across the transform was not found")
+    L = ["-- GENERATED by harness/props/C04.py from /repo/trimesh/path/path.py::Path.apply_transform (ast) -- do not edit",
+         "namespace TV.Generated.C04",
+         "/-- cache keys copied unchanged across the transform -/",
+         "def pathKept : List String := [" + ", ".join(f'"{k}"' for k in kept) + "]",
+         "/-- cache keys whose value is mapped through the matrix point by point -/",
+         "def pathTransported : List String := [" + ", ".join(f'"{k}"' for k in transported) + "]",
+         "/-- order of the cache operations in the method body -/",
+         "def pathEvents : List String := [" + ", ".join(f'"{k}"' for k in events) + "]",
+         "end TV.Generated.C04"]
+    return {"C04PathTable.lean": "\n".join(L) + "\n"}
+
+
+def generated_obligations():
+    return 1
